@@ -43,10 +43,11 @@ def read_ndjson(path):
 
 def run_ddsmt(workdir, input_text, spec, opts=(), entry='launcher',
               timeout=180, ext='.smt2', env_extra=None, cmd_extra=(),
-              cc_spec=None, pre_outfile=None, popen_hook=None, prefix=None, mangle=None):
+              cc_spec=None, pre_outfile=None, popen_hook=None, prefix=None, mangle=None,
+              tmpdir=None):
     """One ddSMT session in `workdir` (created; caller removes it)."""
     os.makedirs(workdir, exist_ok=True)
-    tmp = os.path.join(workdir, 'tmp')
+    tmp = tmpdir or os.path.join(workdir, 'tmp')
     os.makedirs(tmp, exist_ok=True)
     infile = os.path.join(workdir, 'input' + ext)
     outfile = os.path.join(workdir, 'output' + ext)
